@@ -29,7 +29,7 @@ ALL_PUZZLES = ["sudoku", "slitherlink", "masyu", "yajilin", "nurikabe", "heyawak
 # (shards, cases per shard) of the large-board layer; cases cost 0.1 - 4 s each (7 solver calls)
 LARGE_QUICK = {"fillomino": (1, 6), "fivecells": (1, 5), "sudoku": (1, 5), "nurikabe": (1, 6), "view": (1, 6),
                "norinori": (1, 30), "putteria": (1, 30), "lits": (1, 30), "aquarium": (1, 30), "akari": (2, 25),
-               "simpleloop": (1, 15), "masyu": (1, 14), "geradeweg": (2, 16), "castle_wall": (1, 14), "slitherlink": (1, 10),
+               "simpleloop": (1, 15), "masyu": (2, 20), "geradeweg": (2, 16), "castle_wall": (1, 14), "slitherlink": (1, 10),
                "yajilin": (1, 12), "compass": (1, 10), "star_battle": (1, 12), "doppelblock": (1, 8), "shakashaka": (1, 10), "creek": (1, 10), "heyawake": (2, 14)}
 LARGE_THOROUGH = {"fillomino": (8, 20), "fivecells": (8, 20), "sudoku": (8, 25)}
 
@@ -129,6 +129,8 @@ def shard_large(arg):
                 cl.add("large:%s:only-dont-care-models" % name)
             if r["decided"]:
                 cl.add("large:%s:decided-cells" % name)
+            if r.get("negatives"):
+                cl.add("large:%s:rejected-neighbour-grids-probed" % name)
         cl = sorted(cl)
         if case["planted"] is not None:
             cl.append("large:%s:planted" % name)
@@ -178,7 +180,8 @@ def run(ctx):
         "is_sat and every answer cell. non-trivial = instance not skipped for a don't-care candidate; "
         "distinct by case hash. Second layer, boards of 16-50 cells (classes large:*): independently planted or "
         "checker-validated grids with derived clues; the first 3 models of the posted program must obey the rules, "
-        "a planted grid must not be lost, no decided cell may contradict a rule-obeying grid; non-trivial = a "
+        "a planted grid must itself be a model, grids and clue changes next to it that the checker rejects must not "
+        "be models, no decided cell may contradict a rule-obeying grid; non-trivial = a "
         "rule-obeying grid of the instance is known. Puzzles covered: %s. Not covered yet: %s"
         % (", ".join(sorted(specs)), ", ".join(missing) or "none"))
     ctx.assumptions = [
